@@ -12,7 +12,7 @@ namespace LokiModel.C17
 
 /-- `module m; type t; real :: a; end type; end module` -/
 def tdHeap : Heap := { cells := [
-  (1, .unit true "m" none 1 [2] []), (1, .tab none [("t", { code := 9, tdef := some 3 })]),
+  (1, .unit true "m" [] none 1 [2] []), (1, .tab none [("t", { code := 9, tdef := some 3 })]),
   (1, .node "Section" none [] [3]), (1, .node "TypeDef" (some (4, some 0)) [] [5]), (1, .tab (some 1) [("a", { code := 5 })]),
   (1, .node "VariableDeclaration" none [⟨"a", some 3⟩] [])] }
 
@@ -29,10 +29,10 @@ theorem clone_footprint_full_false :
       (clone 10 tdHeap 0).1.tagOf a = some 1 := by
   refine ⟨3, ?_, ?_, by decide⟩
   · exact Reach.step (a := 2) (t := 1) (c := .node "Section" none [] [3])
-      (Reach.step (a := 0) (b := 2) (t := 1) (c := .unit true "m" none 1 [2] []) (Reach.base 0) (by decide) (by decide) (by decide))
+      (Reach.step (a := 0) (b := 2) (t := 1) (c := .unit true "m" [] none 1 [2] []) (Reach.base 0) (by decide) (by decide) (by decide))
       (by decide) (by decide) (by decide)
   · exact Reach.step (a := 6) (t := 2) (c := .tab none [("t", { code := 9, tdef := some 3 })])
-      (Reach.step (a := 7) (b := 6) (t := 2) (c := .unit true "m" none 6 [11] []) (Reach.base 7) (by decide) (by decide) (by decide))
+      (Reach.step (a := 7) (b := 6) (t := 2) (c := .unit true "m" [] none 6 [11] []) (Reach.base 7) (by decide) (by decide) (by decide))
       (by decide) (by decide) (by decide)
 
 end LokiModel.C17
